@@ -2,6 +2,7 @@ package sim
 
 import (
 	"bytes"
+	"crypto/ed25519"
 	"fmt"
 	"os"
 
@@ -167,6 +168,69 @@ func scenarioC18(r *Run) {
 				})
 			}}
 		})
+		// decoding the shared wire bytes into a task-private destination
+		wireBytes := sm.w.B
+		menu = append(menu, func() c18Op {
+			return c18Op{"Unmarshal(shared bytes, private destination)", func() c18Result {
+				return guard(func() ([]byte, error) {
+					dec := decoderForKind(kind)
+					dst := dec.New()
+					if err := dec.Into(dst, wireBytes); err != nil {
+						return nil, err
+					}
+					return dec.Encode(dst)
+				})
+			}}
+		})
+		// header accessors and bucket encoders on the shared headers
+		menu = append(menu, func() c18Op {
+			return c18Op{"Headers accessors", func() c18Result {
+				return guard(func() ([]byte, error) {
+					var h *cose.Headers
+					if sm.m1 != nil {
+						h = &sm.m1.Headers
+					} else {
+						h = &sm.ms.Headers
+					}
+					p, err := h.MarshalProtected()
+					if err != nil {
+						return nil, err
+					}
+					u, err := h.MarshalUnprotected()
+					if err != nil {
+						return nil, err
+					}
+					alg, aerr := h.Protected.Algorithm()
+					crit, cerr := h.Protected.Critical()
+					pb, _ := h.Protected.MarshalCBOR()
+					ub, _ := h.Unprotected.MarshalCBOR()
+					out := append(append(append(append([]byte{}, p...), u...), pb...), ub...)
+					return append(out, []byte(fmt.Sprintf("%d/%v/%d/%v", int64(alg), aerr != nil, len(crit), cerr != nil))...), nil
+				})
+			}}
+		})
+		// abbreviated countersignature over the shared parent with the shared signer
+		menu = append(menu, func() c18Op {
+			return c18Op{"Countersign0(shared parent, shared signer)", func() c18Result {
+				return guard(func() ([]byte, error) {
+					var parent any = sm.ms
+					if sm.m1 != nil {
+						parent = sm.m1
+					}
+					sig, err := cose.Countersign0(NewEntropy(7), sharedSigner, parent, nil)
+					if err != nil {
+						return nil, err
+					}
+					if err := cose.VerifyCountersign0(sharedSignVerifier, parent, nil, sig); err != nil {
+						return []byte("countersigned-but-does-not-verify"), nil
+					}
+					if _, isEd := signKey.Pub.(ed25519.PublicKey); isEd {
+						return sig, nil // deterministic algorithm: bytes comparable
+					}
+					return []byte("ok"), nil
+				})
+			}}
+		})
 		// countersignatures on the shared message
 		rc := &Received{Kind: kind, M1: sm.m1, MS: sm.ms}
 		walkWireCsigs(sm.w, rc, func(n *CsigNode, cs *cose.Countersignature, abbrev []byte, parent any) {
@@ -210,6 +274,19 @@ func scenarioC18(r *Run) {
 						return nil, err
 					}
 					return []byte(fmt.Sprint(int64(v.Algorithm()))), nil
+				})
+			}}
+		})
+		menu = append(menu, func() c18Op {
+			return c18Op{"Key.Signer+PrivateKey", func() c18Result {
+				return guard(func() ([]byte, error) {
+					_, perr := sharedKey.PrivateKey()
+					sg, err := sharedKey.Signer()
+					if err != nil {
+						return []byte(fmt.Sprint(perr != nil)), err
+					}
+					a, _ := sharedKey.AlgorithmOrDefault()
+					return []byte(fmt.Sprint(int64(sg.Algorithm()), int64(a), perr != nil)), nil
 				})
 			}}
 		})
